@@ -260,6 +260,8 @@ def enumerate_cases(tier, seed):
     for pk in (PKS if thorough else ("both",)):
         for prior in (PRIORS if thorough else ("both",)):
             cases.append({"part": "arch", "pk": pk, "prior": prior})
+    for pk in ("mem", "both"):
+        cases.append({"part": "arch", "pk": pk, "prior": "fresh", "multi": True})
     for pk in (PKS if thorough else ("mem", "both")):
         for prior in (PRIORS if thorough else ("fresh", "both")):
             cases.append({"part": "calin", "pk": pk, "prior": prior})
@@ -269,8 +271,8 @@ def enumerate_cases(tier, seed):
 def expected_size(tier, seed):
     nvar = 15 + 3 * 4
     if tier == "thorough":
-        return 4 * 4 * 3 * 2 * (nvar + 4) + 2 * 4 * 3 * 2 * 4 + 4 * 4 * 1 * 2 * 2 + 4 * 4 * 6 + 16 + 16 + 64 + 2
-    return 2 * 2 * 2 * 2 * (nvar + 4) + 2 * 2 * 2 * 2 * 4 + 2 * 2 * 1 * 2 * 2 + 4 * 2 * 6 + 1 + 4 + 32 + 2
+        return 4 * 4 * 3 * 2 * (nvar + 4) + 2 * 4 * 3 * 2 * 4 + 4 * 4 * 1 * 2 * 2 + 4 * 4 * 6 + 16 + 16 + 64 + 2 + 2
+    return 2 * 2 * 2 * 2 * (nvar + 4) + 2 * 2 * 2 * 2 * 4 + 2 * 2 * 1 * 2 * 2 + 4 * 2 * 6 + 1 + 4 + 32 + 2 + 2
 
 
 # ---------------------------------------------------------------- the check
@@ -592,18 +594,63 @@ def run_calin(case):
             "outcome": {"fitness": fits}}
 
 
+def _arch_multi(pk, prior, tmp):
+    """2 islands x 2 (target, input value) pairs"""
+    from pyxel.observation import ParameterValues
+
+    from vp import calib
+
+    s = _s()
+    temps = [150.0 + s, 250.0 + s]
+    files = []
+    for i, _t in enumerate(temps):
+        fn = os.path.join(tmp, f"mtarget{i}.npy")
+        np.save(fn, np.arange(6.0).reshape(ROWS, COLS) * (i + 1) + s)
+        files.append(fn)
+    cal = calib.calibration(files, [ParameterValues(key=K_INC, values="_", boundaries=(0.0, 10.0)),
+                                    ParameterValues(key=K_A, values="_", boundaries=(0.0, 100.0))],
+                            fit_range=(0, ROWS, 0, COLS), pygmo_seed=1 + s, population_size=8, generations=1,
+                            num_islands=2, num_evolutions=1, topology="unconnected",
+                            result_input_arguments=[ParameterValues(key=K_T, values=list(temps))])
+    det, pipe = make_objects(pk, prior)
+    return cal, det, pipe, temps
+
+
 def run_arch(case):
     import pyxel
+    from pyxel.exposure import Readout
 
     pk, prior = case["pk"], case["prior"]
     viol = []
     tmp = tempfile.mkdtemp(prefix="vp_c06_")
     try:
-        cal, det, pipe, target, _ = _cal_objects(pk, prior, tmp)
+        temps = None
+        if case.get("multi"):
+            cal, det, pipe, temps = _arch_multi(pk, prior, tmp)
+        else:
+            cal, det, pipe, target, _ = _cal_objects(pk, prior, tmp)
         before = snapshot.snapshot([det, pipe])
         err = None
         try:
-            pyxel.run_mode(cal, det, pipe, with_inherited_coords=True)
+            res = pyxel.run_mode(cal, det, pipe, with_inherited_coords=True)
+            if temps is not None:
+                # every (island, target/input pair) entry of the simulated outputs is the standalone exposure of that
+                # island's champion with that pair's input value - not the data of another entry
+                par = np.asarray(res["/champion/parameters"].transpose("island", "evolution", "param_id").values, dtype=float)
+                sim = res["/simulated/pixel"].compute()
+                for i in range(par.shape[0]):
+                    for p_, t in enumerate(temps):
+                        got = np.asarray(sim.isel(island=i, processor=p_).transpose("readout_time", "y", "x").values,
+                                         dtype=float)
+                        ref = standalone(pk, prior, "1", {"inc": float(par[i, -1, 0]), "a": float(par[i, -1, 1]), "T": t},
+                                         readout=Readout())["pixel"]
+                        if got.shape != ref.shape or not np.array_equal(got, ref):
+                            viol.append(({"part": "arch", "code": "simulated-entry-differs-from-standalone"},
+                                         f"[calibration run pipeline={pk} caller-history={prior}, 2 islands x 2 inputs] "
+                                         f"/simulated/pixel of island {i}, pair {p_} is {got.tolist()} but a standalone "
+                                         f"exposure with that island's champion {par[i, -1].tolist()} and input T={t} "
+                                         f"gives {ref.tolist()}"))
+                            break
         except Exception as e:  # noqa: BLE001
             err = e
         after = snapshot.snapshot([det, pipe])
@@ -616,7 +663,7 @@ def run_arch(case):
                          what + f"the caller's objects changed: {snapshot.fmt(d)}"))
     finally:
         shutil.rmtree(tmp, ignore_errors=True)
-    return {"viol": viol, "sig": cfgx.sig(["arch", pk, prior, len(after)]), "nontrivial": True, "n": 1,
+    return {"viol": viol, "sig": cfgx.sig(["arch", pk, prior, len(after), bool(case.get("multi"))]), "nontrivial": True, "n": 1,
             "outcome": {"snapshot_entries": len(after)}}
 
 
